@@ -488,6 +488,8 @@ func runC07(ctx *core.Ctx) {
 	runC07Opts(ctx, rnd)
 	// 6. the mapping the loader hands to Substitute at each of its call sites (include / extends / name / options)
 	runC07Sites(ctx, rnd)
+	// 7. random trees of documents: the stateful walk (heap of interp.Options cells) vs the loader
+	runC07Docs(ctx, rnd)
 	ctx.Wait()
 	reportStrClasses(ctx)
 }
